@@ -203,7 +203,7 @@ CLAIMED = {
               "(year 0 / month 1 / day 1 / 00:00:00 / the configuration's zone), and for full formats it returns a point comparing Eq with "
               "the original (whole-second points). Correspondence: random directive sequences, full and partial formats, unsupported letters."),
         note=("strptime theorems exclude %s (parsed through float()) and are stated for the canonical text; a stray '%' in literal text is outside "
-              "the model; %s of an instant before the epoch with a fractional second was truncated toward zero by the package (defect F14)."),
+              "the model; %s of an instant before the epoch with a fractional second was truncated toward zero by the package (defect F14, repaired by fix: ecba00f; the strftime theorem now covers %s everywhere)."),
         technique="Coq proof (strftime = Spec POSIX rendering of the civil date-time; reflection over the generated directive table) + correspondence",
         design="7 C17"),
     "C18": dict(
